@@ -12,7 +12,11 @@ Differences from the base simulator (all additive, the base module is untouched)
  * `sver` replies carry a per-core physical CPU number, optional labels after the patch level and an optional
    missing final NUL;
  * `info` replies can carry junk in the bits of arg1 that the documentation leaves unassigned
-   (chip.info_junk) - the documented fields are produced by the base simulator from the chip's attributes.
+   (chip.info_junk) - the documented fields are produced by the base simulator from the chip's attributes;
+ * a chip can be listed in every P2P table and yet be unreachable in the way real machines mostly show it: the
+   Ethernet chip's monitor answers on its behalf with a fatal P2P return code (`refusing`: chip -> return code),
+   not with silence;
+ * the size of a console buffer block (sv.iobuf_size) is a per-chip quantity (chip.iobuf_size when set).
 """
 import struct
 
@@ -35,6 +39,7 @@ class ProbeSim(SimMachine):
         self.version_labels = ""
         self.version_final_nul = True
         self.build_date = 1400000000
+        self.refusing = {}                     # (x, y) -> return code answered on behalf of that chip
         self._probe_ready = True
         for c in self.chips.values():
             self.init_chip(c)
@@ -59,13 +64,38 @@ class ProbeSim(SimMachine):
         c.write(self.sv_addr("p2p_dims"), struct.pack("<H", ((self.width & 0xff) << 8) | (self.height & 0xff)))
         c.write(self.sv_addr("num_cpus"), struct.pack("<B", c.ncores))
         c.write(self.sv_addr("vcpu_base"), struct.pack("<I", c.vcpu_base))
-        c.write(self.sv_addr("iobuf_size"), struct.pack("<I", self.iobuf_size))
+        c.write(self.sv_addr("iobuf_size"), struct.pack("<I", getattr(c, "iobuf_size", self.iobuf_size)))
 
     def _sync_router(self, c, idxs=None):
         pass
 
     def sync_p2p(self, xy):
         self._sync_p2p(self.chips[xy])
+
+    def _sync_p2p(self, c):
+        # chips that are refused on are in the table exactly like silent ones
+        silent = self.unresponsive
+        self.unresponsive = set(silent) | set(self.refusing)
+        try:
+            SimMachine._sync_p2p(self, c)
+        finally:
+            self.unresponsive = silent
+
+    def set_refusing(self, codes):
+        """codes: {(x, y): return code}; these chips are not built, a request to them is answered with the code"""
+        self.refusing = dict(codes)
+        for c in codes:
+            self.chips.pop(c, None)
+
+    def deliver(self, datagram):
+        before = len(self.log)
+        out = SimMachine.deliver(self, datagram)
+        rec = self.log[-1] if len(self.log) > before else None
+        if out and rec is not None and (rec["x"], rec["y"]) in self.refusing and (rec["x"], rec["y"]) not in self.chips:
+            rc = self.refusing[(rec["x"], rec["y"])]
+            rec["rc"], rec["reply_args"], rec["reply_data"] = rc, [], b""
+            out = [out[0][:10] + struct.pack("<H", rc) + out[0][12:14]]
+        return out
 
     def set_unresponsive(self, chips):
         self.unresponsive = set(chips)
